@@ -57,8 +57,55 @@ class Analysis:
             return (d, "notin", frozenset(v for v, tgt in term["vs"] if tgt != t))
         return (d, "in", frozenset(vals))
 
-    def atoms_at(self, bb):
-        return [self.edge_atom(s, t) for (s, t) in self.dominating_edges(bb)]
+    def atoms_at(self, bb, _depth=0):
+        out = [self.edge_atom(s, t) for (s, t) in self.dominating_edges(bb)]
+        if _depth >= 3:
+            return out
+        # a boolean local that is only ever assigned constants outside loops (`let a = matches!(x, P);`, `let ok = cond;`
+        # lowered to branches): `a` being true at a later test means the one block that assigns `true` was executed, so
+        # the guards that dominate that block held — `if a && b { .. }` then reads like the nested `if let` form
+        extra = []
+        for (d, rel, vals) in out:
+            d0 = d
+            while d0[0] in ("ref", "deref"):
+                d0 = d0[1]
+            if d0[0] != "var":
+                continue
+            tr = truth_of(rel, vals)
+            if tr is None:
+                continue
+            l = d0[1]
+            ty = self.body.locals[l]["ty"]
+            if ty.get("k") != "bool" or self.terms.defs.partial[l]:
+                continue
+            defs = self.terms.defs.whole[l]
+            consts = []
+            for (bi, si, x) in defs:
+                if si == "t" or x.get("k") != "use" or x["o"].get("k") != "const" or not isinstance(x["o"].get("v"), (bool, int)):
+                    consts = None
+                    break
+                consts.append((bi, bool(x["o"]["v"])))
+            if not consts or any(self.in_loop(bi) for bi, _ in consts):
+                continue
+            same = [bi for bi, v in consts if v == tr]
+            if len(same) == 1 and same[0] != bb:
+                extra += self.atoms_at(same[0], _depth + 1)
+        seen = set()
+        res = []
+        for a in out + extra:
+            k = (str(a[0]), a[1], tuple(sorted(a[2])) if hasattr(a[2], "__iter__") else a[2])
+            if k not in seen:
+                seen.add(k)
+                res.append(a)
+        return res
+
+    def in_loop(self, bb):
+        if not hasattr(self, "_loop_blocks"):
+            lb = set()
+            for (tl, hd) in self.body.back_edges():
+                lb |= set(self.body.natural_loop(tl, hd))
+            self._loop_blocks = lb
+        return bb in self._loop_blocks
 
     def bool_atoms_at(self, bb):
         """Atoms as (term, truth) for boolean-like guards."""
